@@ -1,6 +1,6 @@
 """C05 - indented text is parsed by the offside rule and bad indentation is refused.
 
-Part 1 (E2, explicit-state search): the real generator chain tabparser._stacked(_stripped_indents(_parsed_indents(
+Part 1 (E2, explicit-state search): the real generator chain env.call_private(tabparser, "_stacked", _stripped_indents(_parsed_indents(
         _filtered_lines(source)))) is fed lazily from a harness-controlled line source. A state is what the real
         generator frames hold (indents, curr_level, g_level of _stripped_indents; stack of _stacked), read from
         gi_frame.f_locals. Every state is rebuilt by replaying its shortest event history on a fresh chain, every
@@ -128,7 +128,7 @@ class Chain:
         from annet.annlib import tabparser
         self.tp = tabparser
         self.src = Source()
-        self.outer = tabparser._stacked(self.src, tuple(comments))
+        self.outer = env.call_private(tabparser, "_stacked", self.src, tuple(comments))
         self.inner = None
 
     def _next(self):
